@@ -27,7 +27,11 @@ BLOCKS = {
     'explosive':    ("x = 1.5*LAG_x + D\nLAG_x = x(k-1)", _single(1.5), ['x', 'LAG_x']),
     'two-stocks':   ("x = 0.5*LAG_x + 0.25*LAG_y + D\ny = LAG_y - 0.5*LAG_x + 1\nLAG_x = x(k-1)\nLAG_y = y(k-1)",
                      {'x': {'x': 0.5, 'y': 0.25}, 'y': {'x': 0.5, 'y': 1.0}, 'LAG_x': {'x': 1.0}, 'LAG_y': {'y': 1.0}}, ['x', 'y', 'LAG_x', 'LAG_y']),
-    'with-deco':    ("x = 0.5*LAG_x + D\nb = D - x\nLAG_x = x(k-1)", {'x': {'x': 0.5}, 'LAG_x': {'x': 1.0}, 'b': {'x': 0.5}}, ['x', 'LAG_x']),
+    # '@self': c  -- the variable's own last search step is tested by the acceptance rule as well, and one more period changes it by c times that step;
+    # a derived variable that is a small difference of large ones (a balance) is bound much tighter by its own test than by the stocks'
+    'with-deco':    ("x = 0.5*LAG_x + D\nb = D - x\nLAG_x = x(k-1)", {'x': {'x': 0.5, '@self': 0.5}, 'LAG_x': {'x': 1.0}, 'b': {'x': 0.5, '@self': 0.5}}, ['x', 'LAG_x']),
+    'deco-balance': ("x = 0.5*LAG_x + D\nbal = 2*D - x\nsav = x - LAG_x\nLAG_x = x(k-1)",
+                     {'x': {'x': 0.5, '@self': 0.5}, 'LAG_x': {'x': 1.0}, 'bal': {'x': 0.5, '@self': 0.5}, 'sav': {'x': 0.5, '@self': 0.5}}, ['x', 'LAG_x']),
 }
 
 
@@ -113,7 +117,10 @@ def case_run(case):
             diff = z3.If(b - a >= 0, b - a, a - b)
             allowed = symx.rat(1e-6)
             for stock, c in gain[v].items():
-                allowed = allowed + symx.rat(abs(c)) * lim_of(x0[stock])
+                if stock == '@self':
+                    props.append(diff <= symx.rat(1e-6) + symx.rat(abs(c)) * lim_of(a))
+                else:
+                    allowed = allowed + symx.rat(abs(c)) * lim_of(x0[stock])
             props.append(diff <= allowed)
         r, m = D.holds(z3.And(props))
         if r == 'sat' and out['viol'] is None:
@@ -171,7 +178,8 @@ es.SolveStep(1)
 for v, a in x0.items():
     if v not in gain: continue
     b = es.TimeSeries[v][1]
-    lim = 1e-6 + sum(abs(c) * max(tol * abs(x0[st]), tol, 2e-4) for st, c in gain[v].items())
+    lim = 1e-6 + sum(abs(c) * max(tol * abs(x0[st]), tol, 2e-4) for st, c in gain[v].items() if st != '@self')
+    if '@self' in gain[v]: lim = min(lim, 1e-6 + abs(gain[v]['@self']) * max(tol * abs(a), tol, 2e-4))
     print(v, 'installed k=0 value', a, 'next period', b, 'allowed change', lim)
     if abs(b - a) > lim * (1 + 1e-9): bad = True
 sys.exit(1 if bad else 0)
